@@ -437,23 +437,29 @@ Definition call (st : state) (m : N) (epoch ext : Z) (o : mop) : state * Z * lis
       end
   end.
 
-(* a failed cron callback is rolled back and the power actor deletes the miner's claim *)
-Definition cron_call (st : state) (m : N) (epoch ext : Z) (o : mop) : state * Z * list send :=
-  let '(st', c, s) := call st m epoch ext o in
-  if c =? 0 then (st', c, s) else
-  match miners st !! m with
-  | None => (st, c, s)
-  | Some mi => (mkState (<[m := set_claim mi false]> (miners st)) (total st), c, s)
+(* power.process_deferred_cron_events: every callback of the tick runs (claims are looked up before the
+   loop); a failed callback is rolled back; AFTERWARDS the power actor deletes the claims of the miners
+   whose callback failed *)
+Fixpoint drop_claims (ms : gmap N miner) (failed : list N) : gmap N miner :=
+  match failed with
+  | [] => ms
+  | m :: r =>
+      let ms' := match ms !! m with Some mi => <[m := set_claim mi false]> ms | None => ms end in
+      drop_claims ms' r
   end.
 
-Fixpoint tick (st : state) (epoch : Z) (cbs : list (N * Z * mop)) (codes : list Z) (sends : list send)
-  : state * list Z * list send :=
+Fixpoint tick_loop (st : state) (epoch : Z) (cbs : list (N * Z * mop)) (codes : list Z) (sends : list send)
+                   (failed : list N) : state * list Z * list send * list N :=
   match cbs with
-  | [] => (st, codes, sends)
+  | [] => (st, codes, sends, failed)
   | (m, ext, o) :: r =>
-      let '(st', c, s) := cron_call st m epoch ext o in
-      tick st' epoch r (codes ++ [c]) (sends ++ s)
+      let '(st', c, s) := call st m epoch ext o in
+      tick_loop st' epoch r (codes ++ [c]) (sends ++ s) (if c =? 0 then failed else failed ++ [m])
   end.
+
+Definition tick (st : state) (epoch : Z) (cbs : list (N * Z * mop)) : state * list Z * list send :=
+  let '(st', codes, sends, failed) := tick_loop st epoch cbs [] [] [] in
+  (mkState (drop_claims (miners st') failed) (total st'), codes, sends).
 
 Definition step (st : state) (o : op) : state * list Z * list send :=
   match o with
@@ -464,7 +470,7 @@ Definition step (st : state) (o : op) : state * list Z * list send :=
       | Err c => (st, [c], [])
       end
   | Call m epoch ext o => let '(st', c, s) := call st m epoch ext o in (st', [c], s)
-  | Tick epoch cbs => tick st epoch cbs [] []
+  | Tick epoch cbs => tick st epoch cbs
   end.
 
 Definition run (st : state) (ops : list op) : state := fold_left (fun s o => fst (fst (step s o))) ops st.
